@@ -1,4 +1,5 @@
 import Sourcer.Expr
+import Sourcer.FlagsFast
 import Sourcer.OpTable
 /-
   MODEL of the generated code.  `gen F P inp fuel e p` denotes what the Python text emitted by
